@@ -148,6 +148,22 @@ def compare(res, spec, rend, line):
                 if a[0] == 'str' and a[1] == '':
                     sub = ':empty'
                 res.bad('arg:%s%s->%s%s' % (a[0], sub, g[0], tag), '%r arg %d decoded %r, denotes %r' % (line, i, g, e))
+    # second observation point: the arguments shown on the output line for that message
+    if rend == 'new' and not res.discs:
+        def show(a):
+            k = a[0]
+            if k == 'int': return str(a[1])
+            if k == 'uint': return str(a[1] & 0xffffffff)
+            if k == 'fixed': return str(a[1] / 256.0)
+            if k == 'str': return 'null ??' if a[1] is None else repr(a[1])
+            if k == 'obj': return 'null ??' if a[2] is None else 'unresolved %s@%d?' % (a[1], a[2])
+            if k == 'new': return 'new unresolved %s@%d?' % (a[1] if a[1] is not None else '???', a[2])
+            if k == 'array': return '[...]'
+            return 'fd %d' % a[1]
+        exp = ('→ ' if spec['sent'] else '') + 'unresolved %s@%d?.%s(' % (spec['iface'], spec['id'], spec['name']) + ', '.join(show(a) for a in spec['args']) + ')' + (
+            '' if spec['sent'] else ' ↲')
+        if str(msg) != exp:
+            res.bad('shown-line' + tag, 'decoded message is shown as %r, the line denotes %r' % (str(msg), exp))
     return conn_id
 
 
